@@ -440,13 +440,37 @@ class PathCtx:
         return ",".join("%s:%s" % (l, "T" if d else "F") for l, d in self.trace if l)
 
 
-def explore(run, max_paths=20000, time_limit_s=600, feas_timeout_ms=3000):
-    """Run `run(ctx)` once per feasible path. Returns list of (ctx, result) and stats."""
+def explore(run, max_paths=20000, time_limit_s=600, feas_timeout_ms=3000, shard=None):
+    """Run `run(ctx)` once per feasible path. Returns list of (ctx, result) and stats.
+
+    shard=(i, n): the path tree is split deterministically into disjoint subtrees (breadth-first expansion until there
+    are about 6n of them); shard i explores subtrees i, i+n, ...; the paths met during the expansion belong to shard 0."""
     work = [[]]
     results = []
     t0 = time.time()
     n = 0
     infeasible = 0
+    if shard is not None and shard[1] > 1:
+        si, sn = shard
+        target = 6 * sn
+        pre = []
+        while work and len(work) < target:
+            dec = work.pop(0)
+            ctx = PathCtx(dec, feas_timeout_ms=feas_timeout_ms)
+            n += 1
+            try:
+                res = run(ctx)
+            except PathInfeasible:
+                infeasible += 1
+                work.extend(ctx.alternatives)
+                continue
+            work.extend(ctx.alternatives)
+            pre.append((ctx, res))
+        work = work[si::sn]
+        if si == 0:
+            results.extend(pre)
+        else:
+            n, infeasible = 0, 0
     while work:
         if n >= max_paths:
             raise Budget("more than %d paths" % max_paths)
